@@ -140,14 +140,6 @@ func (p pairs) sorted() pairs {
 	return p
 }
 
-func (p pairs) coq() string {
-	ss := make([]string, len(p))
-	for i := range p {
-		ss[i] = vh.Tuple(vh.N(uint64(p[i][0])), vh.N(uint64(p[i][1])))
-	}
-	return vh.List(ss)
-}
-
 // runHistory drives one history, evaluates the oracle after every op and returns the Coq case term.
 func runHistory(res *vh.Result, rp replay, verbose bool) string {
 	im := newImpl(rp.Mode)
@@ -160,7 +152,7 @@ func runHistory(res *vh.Result, rp replay, verbose bool) string {
 	for i, op := range rp.Ops {
 		at := fmt.Sprintf("mode=%s op#%d %+v: ", rp.Mode, i, op)
 		var ret bool
-		var opterm string
+		var opcode uint64
 		switch op.Kind {
 		case "set":
 			m := newMember(op.Addr, op.Node, op.Tag)
@@ -179,7 +171,7 @@ func runHistory(res *vh.Result, rp replay, verbose bool) string {
 				fail("set-return", at+fmt.Sprintf("Set returned added=%v for an address that was present=%v", ret, was))
 			}
 			ref[op.Addr] = mem{op.Addr, op.Node, op.Tag}
-			opterm = fmt.Sprintf("OSet (mkMember %s %s %s)", vh.N(uint64(op.Addr)), vh.N(uint64(op.Node)), vh.N(uint64(op.Tag)))
+			opcode = uint64(0 + 3*(op.Addr+16*(op.Node+4*op.Tag)))
 		case "remove":
 			_, was := ref[op.Addr]
 			if im.srv != nil {
@@ -197,22 +189,24 @@ func runHistory(res *vh.Result, rp replay, verbose bool) string {
 				fail("remove-return", at+fmt.Sprintf("Remove returned removed=%v for an address that was present=%v", ret, was))
 			}
 			delete(ref, op.Addr)
-			opterm = fmt.Sprintf("ORemove %s", vh.N(uint64(op.Addr)))
+			opcode = uint64(1 + 3*op.Addr)
 		case "empty":
 			im.pool.Empty()
 			ref = map[int]mem{}
 			ret = true
-			opterm = "OEmpty"
+			opcode = 2
 		default:
 			panic("unknown op " + op.Kind)
 		}
 
 		// ---- observers
-		exs := make([]string, nAddrs)
-		gets := make([]string, nAddrs)
+		var emask, fmask uint64
+		var entries []uint64
 		for a := 0; a < nAddrs; a++ {
 			ex := im.pool.Exists(addrs[a])
-			exs[a] = vh.Bool(ex)
+			if ex {
+				emask |= 1 << uint(a)
+			}
 			want, present := ref[a]
 			if ex != present {
 				fail("exists-mismatch", at+fmt.Sprintf("Exists(addr %d)=%v but present=%v", a, ex, present))
@@ -221,10 +215,9 @@ func runHistory(res *vh.Result, rp replay, verbose bool) string {
 				fail("exists-mismatch", at+fmt.Sprintf("Memberlist.Exists(addr %d)=%v but present=%v", a, !present, present))
 			}
 			gm, found := im.pool.Get(addrs[a])
-			gt := "None"
 			if gm != nil {
 				g := memOf(gm)
-				gt = vh.Some(vh.Tuple(vh.N(uint64(g.node)), vh.N(uint64(g.tag))))
+				entries = append(entries, uint64(2*(a+16*(g.node+4*g.tag))))
 				if present && g != want {
 					fail("get-wrong-member", at+fmt.Sprintf("Get(addr %d) returned %+v, the present member is %+v", a, g, want))
 				}
@@ -237,10 +230,11 @@ func runHistory(res *vh.Result, rp replay, verbose bool) string {
 			if found != present {
 				fail("get-not-found", at+fmt.Sprintf("Get(addr %d) found=%v but present=%v", a, found, present))
 			}
-			gets[a] = vh.Tuple(gt, vh.Bool(found))
+			if found {
+				fmask |= 1 << uint(a)
+			}
 		}
-		mlens := make([]string, nNodes)
-		nls := make([]string, nNodes)
+		var lens uint64
 		for n := 0; n < nNodes; n++ {
 			var want pairs
 			for _, m := range ref {
@@ -273,8 +267,10 @@ func runHistory(res *vh.Result, rp replay, verbose bool) string {
 			if len(want) > 1 {
 				nontrivial = true
 			}
-			mlens[n] = vh.N(uint64(ml))
-			nls[n] = got.coq()
+			lens += uint64(ml) << uint(6*n)
+			for _, g := range got {
+				entries = append(entries, uint64(1+2*(n+4*(g[0]+16*g[1]))))
+			}
 		}
 		l := im.pool.Len()
 		if l != len(ref) {
@@ -327,10 +323,20 @@ func runHistory(res *vh.Result, rp replay, verbose bool) string {
 				fail("members-len-others", at+fmt.Sprintf("MembersLenOthers(node %d, addr %d)=(%d,%d,%v) want (%d,%d,%v)", op.PN, op.PA, ol, oo, of, wl, wo, wf))
 			}
 		}
-		obs := fmt.Sprintf("mkObs %s %s %s %s %s %s %s %s %s", vh.Bool(ret), vh.List(exs), vh.List(gets), vh.List(mlens),
-			vh.List(nls), vh.N(uint64(l)), all.coq(), vh.Tuple(vh.N(uint64(op.PN)), vh.N(uint64(op.PA))),
-			vh.Tuple(vh.N(uint64(ol)), vh.N(uint64(oo)), vh.Bool(of)))
-		steps = append(steps, "("+opterm+", "+obs+")")
+		sort.Slice(entries, func(i, j int) bool { return entries[i] < entries[j] })
+		misc := uint64(l) + uint64(op.PN)<<6 + uint64(op.PA)<<12 + uint64(ol)<<18 + uint64(oo)<<24
+		if of {
+			misc += 1 << 30
+		}
+		masks := 2 * (emask + 1024*fmask)
+		if ret {
+			masks++
+		}
+		items := []string{strconv.FormatUint(opcode, 10), strconv.FormatUint(masks, 10), strconv.FormatUint(lens, 10), strconv.FormatUint(misc, 10)}
+		for _, e := range entries {
+			items = append(items, strconv.FormatUint(e, 10))
+		}
+		steps = append(steps, vh.List(items))
 		if verbose {
 			fmt.Printf("%s ret=%v len=%d all=%v\n", at, ret, l, all)
 		}
@@ -488,7 +494,7 @@ func main() {
 	o := vh.ParseFlags()
 	setup()
 	res := vh.NewResult("random join/re-join/leave/empty histories (1..40 ops) over 9 addresses x 3 nodes (+1 unused each; 1/7 of joins under a foreign node), directly on membersPool or through Memberlist.whenJoined/whenLeft; all observers after every op vs reference map addr->last joined member; non-trivial = history contains a re-join of a present address or a node with >= 2 present members")
-	cases := &vh.Cases{Import: "From MV Require Import C37.Model.", Type: "list (op * obs)", CheckFn: "check", Shard: 100}
+	cases := &vh.Cases{Import: "From MV Require Import C37.Model.\nOpen Scope N_scope.", Type: "list (list N)", CheckFn: "check", Shard: 100}
 	if o.Replay != "" {
 		var rp replay
 		if err := vh.ReadReplay(o.Replay, &rp); err != nil {
